@@ -1314,8 +1314,10 @@ func (t *TxPublisher) createUnknownSpentBumpResult(
 func (t *TxPublisher) createAndPublishTx(
 	r *monitorRecord) fn.Option[BumpResult] {
 
-	// Fetch the old tx.
+	// Fetch the old tx, along with the fee info that belongs to it.
 	oldTx := r.tx
+	oldFee := r.fee
+	oldOutpointToTxIndex := r.outpointToTxIndex
 
 	// Create a new tx with the new fee rate.
 	//
@@ -1334,11 +1336,24 @@ func (t *TxPublisher) createAndPublishTx(
 	// record by overwriting the same requestID.
 	record := t.updateRecord(r, sweepCtx)
 
+	// restoreOldTx puts the old tx back into the record. It's used when
+	// the replacement never made it into the mempool, in which case the
+	// old tx is still the one being monitored and the one the next
+	// attempt replaces.
+	restoreOldTx := func() {
+		r.tx = oldTx
+		r.fee = oldFee
+		r.outpointToTxIndex = oldOutpointToTxIndex
+		t.records.Store(r.requestID, r)
+	}
+
 	// Attempt to broadcast this new tx.
 	result, err := t.broadcast(record)
 	if err != nil {
 		log.Infof("Failed to broadcast replacement tx %v: %v",
 			sweepCtx.tx.TxHash(), err)
+
+		restoreOldTx()
 
 		return fn.None[BumpResult]()
 	}
@@ -1353,6 +1368,8 @@ func (t *TxPublisher) createAndPublishTx(
 
 		log.Debugf("Failed to bump tx %v: %v", oldTx.TxHash(),
 			result.Err)
+
+		restoreOldTx()
 
 		return fn.None[BumpResult]()
 	}
